@@ -43,8 +43,8 @@ def drive_(a, rng):
     ts = tables.tree_sequence()
     N = ts.num_nodes - off
     case = dict(ts=dict(L=a["L"], time=[2 * t for t in a["time"]], flags=a["flags"], edges=a["edges"]))
-    if rng.random() < 0.6 or N < 3:
-        within = rng.sample(range(N), rng.randint(2, min(5, N))) if rng.random() < 0.7 else None
+    if rng.random() < 0.6 or N < 3 or a.get("_wide"):
+        within = rng.sample(range(N), rng.randint(2, min(5, N))) if rng.random() < 0.7 and not a.get("_wide") else None
         case["mode"] = "within"
         case["within"] = within if within is not None else [int(u) - off for u in ts.samples()]
         case["between"] = []
@@ -93,6 +93,21 @@ def drive_(a, rng):
     return case
 
 
+def wide_abstract(rng, n):
+    """n sample leaves under one node p, which hangs with one more sample under the root: the edge above p carries n lineages at once
+    (per-edge bookkeeping that grows in blocks must not lose the lineage that triggers the growth); in a second cell the extra sample moves under p"""
+    K = rng.choice([1, 2])
+    p, x, r = n, n + 1, n + 2
+    time = [0] * n + [1, 0, 2]
+    flags = [1] * n + [0, 1, 0]
+    edges = [dict(left=0, right=K, parent=p, child=c) for c in range(n)]
+    if K == 2:
+        edges.append(dict(left=1, right=2, parent=p, child=x))
+    edges.append(dict(left=0, right=K, parent=r, child=p))
+    edges.append(dict(left=0, right=1, parent=r, child=x))
+    return dict(L=K, time=time, flags=flags, edges=edges, sites=[], muts=[], _wide=1, _nopad=1)
+
+
 def run():
     chk = Check("C19")
     rng = random.Random(SEED * 7919 + 19)
@@ -105,6 +120,8 @@ def run():
     for i in range(1500 if QUICK else 25000):
         a = gen.random_abstract(rng, N=rng.randint(2, 8), K=rng.randint(1, 6), max_edges=14, nsites=0, nmuts=0)
         cases.append(drive(a, rng))
+    for n in ([65, 130] if QUICK else [63, 64, 65, 66, 127, 128, 129, 130, 200, 257]):
+        cases.append(drive(wide_abstract(rng, n), rng))
     for c in [c for c in cases if "error" in c]:
         chk.note_case(c["a"], True)
         chk.violation("ibd_segments (or reading its result) raised on a valid input: %s\n%s" % (c["error"], c["tb"]), c)
